@@ -67,7 +67,7 @@ fn msg_flags_offset_priority_version() {
     kani::cover!(true);
 }
 #[kani::proof]
-#[kani::unwind(9)]
+#[kani::unwind(18)]
 fn msg_flags_reserved_bits_ok() {
     let w: u16 = kani::any();
     let f = msg_flags_of(w);
